@@ -316,8 +316,12 @@ pub fn check(case: &Case, obs: &mut Obs) -> Result<(), Fail> {
                     bytes.extend_from_slice(&RespMsg { id: m.id, resp: Resp::result(5, res), ctrls: Some(ctrls) }.encode());
                     wire.push(&bytes);
                     if !last && c2.cut_after == Some(pi as u8) {
-                        // connection lost at a page boundary
-                        quiesce().await;
+                        // connection lost at a page boundary: either after the consumer had the chance to ask for the
+                        // next page (its request is then on the wire), or right behind the page's result, before the
+                        // consumer gets there (the follow-up request can then not even be started)
+                        if c2.sched % 2 == 0 {
+                            quiesce().await;
+                        }
                         wire.end_read(ReadEnd::Eof);
                         return;
                     }
